@@ -123,6 +123,22 @@ pub fn main(args: &crate::Args) {
             }
         }
     }
+    // leaf offset / multiplier variants (incl. both at once) x predictors x coders through the 16-bit sample arithmetic
+    for tree in 0..14u32 {
+        for lv in 1..7u32 {
+            for coder in 0..2u32 {
+                for depth in [8u32, 12] {
+                    let mut c = base(9, 5);
+                    c.tree = tree;
+                    c.leaf_variant = lv;
+                    c.coder = coder;
+                    c.depth = depth;
+                    c.pattern = 7;
+                    cfgs.push(c);
+                }
+            }
+        }
+    }
     let results = par_map(&cfgs, n_threads(), |_, c| run(c, seed));
     let mut skipped = 0u64;
     for (c, r) in cfgs.iter().zip(&results) {
@@ -177,7 +193,43 @@ pub fn main(args: &crate::Args) {
         }
         rep.extra.insert("vardct_alpha_streams".into(), json!(jobs.len()));
     }
-    rep.rule = format!("all shapes W x H over {{1..70}}{} x 13 transform stacks (none, RCT 6/13/34, squeeze default/explicit-h/explicit-vh, palette explicit/delta/implicit-delta, RCT+squeeze, 3-step squeeze, palette+squeeze) x 2 (quick) / 3 sample patterns on 12-bit images, plus all 36 tree shapes x depths 1/8/12 x layouts with extra channels; every stream declares modular_16bit_buffers only when jxlw's forward pass proves every intermediate fits i16; plus VarDCT frames (DCT8, widths 1..40 / 1..70, several heights) carrying an 8- or 12-bit Modular alpha channel, with and without Gabor + EPF; oracle: default decode == force_wide_buffers decode on every integer / float bit pattern of every channel. Non-trivial = stream is 16-bit truthful and decodes; distinct by configuration.", if quick { "" } else { " u {127,128,129,255,256,257}" });
+    // Modular frames of an XYB-encoded image (the integer -> XYB float conversion has a 16-bit and a 32-bit arm)
+    {
+        use jxlw::frame::*;
+        use jxlw::headers::*;
+        use jxlw::modular::*;
+        let sizes: Vec<(usize, usize)> = if quick { vec![(1, 1), (5, 3), (8, 8), (17, 9), (33, 2)] } else { (1..=40).flat_map(|w| [(w, 1usize), (w, 7), (w, 16)]).collect() };
+        for (w, h) in sizes {
+            for pat in 0..2usize {
+                rep.eval();
+                let mut img = ImageHeader::simple(w as u32, h as u32, false, 8);
+                img.xyb_encoded = true;
+                img.modular_16bit_buffers = true;
+                let fh = FrameHeader::modular_lossless(&img);
+                let chans: Vec<Channel> = (0..3).map(|c| Channel::from_fn(w, h, |x, y| ((x * 7 + y * 13 + c * 29 + pat * 5) % 201) as i32 - 100 + if c == 0 { 150 } else { 0 })).collect();
+                let mut spec = ModularFrameSpec::new(fh, chans);
+                spec.tree = Node::leaf(if pat == 0 { 5 } else { 1 });
+                let bytes = write_codestream(&img, &Sel::default(), &[write_modular_frame(&img, &spec).bytes]);
+                let narrow = decode_planes(&bytes, &DecOpts { wide: false, pool: None });
+                let wide = decode_planes(&bytes, &DecOpts { wide: true, pool: None });
+                match (narrow, wide) {
+                    (Ok(n), Ok(wd)) if n == wd => {
+                        rep.outcome("identical");
+                        rep.nontrivial(fnv(format!("xyb-modular{w}x{h}p{pat}").as_bytes()));
+                    }
+                    (Ok(_), Ok(_)) => {
+                        rep.outcome("differs");
+                        rep.violation("narrow-wide-differ:xyb-modular", &format!("Modular frame {w}x{h} of an XYB-encoded image: narrow and wide decodes differ"), &json!({"family": "xyb-modular", "size": [w, h], "stream_hex": hex(&bytes)}));
+                    }
+                    (a, b) => {
+                        rep.outcome("differs");
+                        rep.violation("xyb-modular-decode", &format!("Modular frame {w}x{h} of an XYB-encoded image: narrow {:?} wide {:?}", a.err(), b.err()), &json!({"family": "xyb-modular", "size": [w, h], "stream_hex": hex(&bytes)}));
+                    }
+                }
+            }
+        }
+    }
+    rep.rule = format!("all shapes W x H over {{1..70}}{} x 13 transform stacks (none, RCT 6/13/34, squeeze default/explicit-h/explicit-vh, palette explicit/delta/implicit-delta, RCT+squeeze, 3-step squeeze, palette+squeeze) x 2 (quick) / 3 sample patterns on 12-bit images, plus all 36 tree shapes x depths 1/8/12 x layouts with extra channels; every stream declares modular_16bit_buffers only when jxlw's forward pass proves every intermediate fits i16; plus leaf offset / multiplier variants x 14 predictors, Modular frames of an XYB-encoded image, and VarDCT frames (DCT8, widths 1..40 / 1..70, several heights) carrying an 8- or 12-bit Modular alpha channel, with and without Gabor + EPF; oracle: default decode == force_wide_buffers decode on every integer / float bit pattern of every channel. Non-trivial = stream is 16-bit truthful and decodes; distinct by configuration.", if quick { "" } else { " u {127,128,129,255,256,257}" });
     for i in [cfgs.len() / 2, cfgs.len() - 1] {
         rep.sample(config_json(&cfgs[i]));
     }
